@@ -44,7 +44,13 @@ def rerun(ctx, prop, case):
     os.makedirs(d, exist_ok=True)
     out = os.path.join(d, "t.tsv")
     want = None
-    if case["kind"] == "case":
+    if case["kind"] == "family":
+        # a family the harness generates itself (location fields): an empty case file, keep the line of the same source
+        cf = os.path.join(d, "empty.ndjson")
+        open(cf, "w").write("")
+        ctx.harness(["c03-apply", "-in", cf, "-out", out])
+        want = case["src"]
+    elif case["kind"] == "case":
         cf = os.path.join(d, "c.ndjson")
         open(cf, "w").write(json.dumps(case["case"]) + "\n")
         ctx.harness([case["cmd"], "-in", cf, "-out", out])
@@ -119,7 +125,9 @@ def run(ctx, prop):
     known = {k["key"] for k in vlib.load_known().get("findings", []) if k["property"] == prop}
     for key, (name, line) in sorted(vlib.limit_new(by_key, prop).items()):
         src = line["src"]
-        if src.startswith("chain/"):
+        if src.startswith("locations/"):
+            case = dict(kind="family", src=src, pred=name, line=line)
+        elif src.startswith("chain/"):
             shard = src.split("/")[2]
             case = dict(kind="chain", args=chargs + ["-shard", shard, "-nshards", str(vlib.NCPU)], src=src, pred=name, line=line)
         elif "#" in src:
